@@ -119,7 +119,9 @@ CHECKS = {
          'verdict true => init synthesis succeeds; and for the translated '
          'Streett(1) construction applied to the translated solver: verdict '
          'true and a non-empty winning region => the construction succeeds '
-         '(none of its refusals fires; uses C02 non-blocking). The winning '
+         '(none of its refusals fires; uses C02 non-blocking), and the same '
+         'for the translated Rabin(1) construction (a winning state lies in '
+         'a trap of its own level, where the action allows a step). The winning '
          'region is exact by C01/C04 (determinacy). Real code compared on '
          'random games/inits incl. transducer construction success.'),
    note=('Trusted: as C01. The winning region is a parameter of these '
